@@ -495,6 +495,10 @@ func c12Gen(t *rapid.T) c12Case {
 	for i := 0; i < n; i++ {
 		key := rapid.SampledFrom([]string{"gene", "gene", "CDS", "source"}).Draw(t, "key")
 		q := rapid.SampledFrom([][]string{{"gene", "a"}, {"gene", "a"}, {"gene", "b"}, {"gene", "a", "x"}, {"gene", "a", "y"}, {"gene", "a x"}, {"gene", "a", "x", "y"}}).Draw(t, "q")
+		qq := [][]string{append([]string(nil), q...)}
+		if rapid.IntRange(0, 3).Draw(t, "lookalike") == 0 {
+			qq = rapid.SampledFrom(c12LookAlikes).Draw(t, "qq")
+		}
 		if crowd && rapid.IntRange(0, 9).Draw(t, "incrowd") > 0 {
 			key, q = "repeat_region", []string{"note", "r"}
 		}
@@ -509,9 +513,22 @@ func c12Gen(t *rapid.T) c12Case {
 		} else {
 			l = genLoc(t, cfg)
 		}
-		c.Feats = append(c.Feats, Feat{Key: key, Loc: l, Quals: [][]string{append([]string(nil), q...)}})
+		if crowd {
+			qq = [][]string{append([]string(nil), q...)}
+		}
+		c.Feats = append(c.Feats, Feat{Key: key, Loc: l, Quals: qq})
 	}
 	return c
+}
+
+// c12LookAlikes: qualifier lists that read alike when names and values are written one after the other (with '/', '=',
+// blanks, commas, quotes or brackets between them) and are nevertheless different lists: features that carry two of
+// them belong to different classes.
+var c12LookAlikes = [][][]string{
+	{{"note", "x/gene=y"}}, {{"note", "x"}, {"gene", "y"}}, {{"note", "x", "gene=y"}}, {{"note", "x/gene", "y"}}, {{"note", "x"}, {"gene=y"}},
+	{{"note", "a,b"}}, {{"note", "a", "b"}}, {{"note", "a b"}}, {{"note", "[a b]"}}, {{"note", "a"}, {"note", "b"}}, {{"note", "a\" \"b"}},
+	{{"note", "a"}, {"gene", "b"}}, {{"gene", "b"}, {"note", "a"}}, {{"note", "a gene b"}}, {{"note", "a"}, {"gene", "b"}, {"pseudo"}}, {{"note", "a"}, {"gene", "b"}, {"pseudo", ""}},
+	{{"note", ""}}, {{"note"}}, {{"note", "", ""}},
 }
 
 // c12GenCli: a cut-and-concatenated record among 0..4 other records, handed to `gts repair` as one stream.
@@ -541,6 +558,20 @@ func TestC12(t *testing.T) {
 	if t.Failed() {
 		return
 	}
+	// look-alike classes: every ordered pair of look-alike qualifier lists on two abutting fragments (3'-partial meeting
+	// 5'-partial) of one key, and on two abutting source features
+	ela := enumPart(t, c12Prop, st, "look-alike-classes")
+	for _, key := range []string{"gene", "source"} {
+		for _, qa := range c12LookAlikes {
+			for _, qb := range c12LookAlikes {
+				c := c12Case{Mode: "table", L: 12, Feats: []Feat{{Key: key, Loc: lprg(2, 6, false, true), Quals: qa}, {Key: key, Loc: lprg(6, 10, true, false), Quals: qb}}}
+				if !ela.try(c) {
+					return
+				}
+			}
+		}
+	}
+	ela.done(true)
 	// exhaustive: one or two forward ranges (all partial combinations) of one class over L=6, straight into Repair;
 	// and every single cut of every single range/point feature over L=6 through the program
 	// exhaustive: two features of one class, one nested in (or overlapping) the other, every pair of cuts, both strands
